@@ -143,7 +143,9 @@ func (c *fkConn) Close() error {
 	c.inTx = false
 	return nil
 }
-func (c *fkConn) Begin() (driver.Tx, error) { return c.BeginTx(context.Background(), driver.TxOptions{}) }
+func (c *fkConn) Begin() (driver.Tx, error) {
+	return c.BeginTx(context.Background(), driver.TxOptions{})
+}
 func (c *fkConn) BeginTx(ctx context.Context, _ driver.TxOptions) (driver.Tx, error) {
 	if err := c.st.step(c, "begin", "BEGIN", ctx); err != nil {
 		return nil, err
@@ -391,7 +393,9 @@ func c18Ops() []c18Op {
 		{"FileLinkAttachments/message", aff(1), func(a *adapter) error {
 			return a.FileLinkAttachments("", t.ZeroUid, uid2, []string{fid.String(), uid.String()})
 		}},
-		{"FileLinkAttachments/topic", aff(1), func(a *adapter) error { return a.FileLinkAttachments(topic, t.ZeroUid, t.ZeroUid, []string{fid.String()}) }},
+		{"FileLinkAttachments/topic", aff(1), func(a *adapter) error {
+			return a.FileLinkAttachments(topic, t.ZeroUid, t.ZeroUid, []string{fid.String()})
+		}},
 		{"FileLinkAttachments/user", aff(1), func(a *adapter) error { return a.FileLinkAttachments("", uid, t.ZeroUid, []string{fid.String()}) }},
 	}
 }
